@@ -38,6 +38,9 @@ fn schedule(r: VRunnable, tag: usize) {
 pub const TASK_PAD: usize = 6000;
 pub static TASK_ALLOCS: AtomicUsize = AtomicUsize::new(0);
 pub static TASK_FREES: AtomicUsize = AtomicUsize::new(0);
+/// set by the engine around a spawn call: the allocator then remembers the task's address
+pub static TRACK_SPAWN: std::sync::atomic::AtomicBool = std::sync::atomic::AtomicBool::new(false);
+pub static TASK_PTR: AtomicUsize = AtomicUsize::new(0);
 
 #[derive(Default)]
 struct Shared {
@@ -278,11 +281,15 @@ impl Engine for TaskEngine {
                     started = true;
                     let fut = ScriptFut { sh: sh.clone(), _pad: [0; TASK_PAD] };
                     if *kind == "forget" {
+                        TRACK_SPAWN.store(true, Ordering::SeqCst);
                         let (r, c) = vtask_spawn_and_forget(fut, schedule, tag);
+                        TRACK_SPAWN.store(false, Ordering::SeqCst);
                         sh.queue.lock().unwrap().push(r);
                         *sh.token.lock().unwrap() = Some(c);
                     } else {
+                        TRACK_SPAWN.store(true, Ordering::SeqCst);
                         let (p, r, c) = vtask_spawn(fut, schedule, tag);
+                        TRACK_SPAWN.store(false, Ordering::SeqCst);
                         sh.queue.lock().unwrap().push(r);
                         promise = Some(p);
                         *sh.token.lock().unwrap() = Some(c);
